@@ -633,6 +633,30 @@ example : inGeneral ["a", "b", "c"]
      ("_ret.1", .or [.and [.sym "a", .sym "b"], .not (.sym "t")])] ["_ret.0", "_ret.1"] true = false := by
   decide +kernel
 
+/-- non-vacuity of `C02_general_partial` on a program outside every older class (kernel-evaluated): `t` is
+defined twice (the second definition reads the first), final uncomputation on, the ancillas of `t` are kept.
+Programs with `And` / `Or` – the ones whose runs have cache hits across statements, like the instance above –
+are exercised through the driver in every check run (`in_general_cache_hit` in `evidence/C02.json`: 162 of the 914
+in-class instances of a quick run): `List.mergeSort` (`sortNat`) does not evaluate in the kernel. -/
+example : inGeneral ["a", "b", "c"]
+      [("t", .xor [.sym "a", .sym "b"]), ("t", .xor [.sym "t", .not (.sym "c")]), ("_ret", .not (.sym "t"))]
+      ["_ret"] = true ∧
+    inFragmentNamedW ["a", "b", "c"]
+      [("t", .xor [.sym "a", .sym "b"]), ("t", .xor [.sym "t", .not (.sym "c")]), ("_ret", .not (.sym "t"))]
+      ["_ret"] = false ∧
+    ∃ s, (compile ["a", "b", "c"]
+      [("t", .xor [.sym "a", .sym "b"]), ("t", .xor [.sym "t", .not (.sym "c")]), ("_ret", .not (.sym "t"))]
+      (some ["_ret"]) true).run { choices := [3, 4, 5] } = .ok ((), s) := by
+  refine ⟨by decide +kernel, by decide +kernel, ?_⟩
+  have h : ((compile ["a", "b", "c"]
+      [("t", .xor [.sym "a", .sym "b"]), ("t", .xor [.sym "t", .not (.sym "c")]), ("_ret", .not (.sym "t"))]
+      (some ["_ret"]) true).run { choices := [3, 4, 5] }).toBool = true := by decide +kernel
+  cases hrun : (compile ["a", "b", "c"]
+      [("t", .xor [.sym "a", .sym "b"]), ("t", .xor [.sym "t", .not (.sym "c")]), ("_ret", .not (.sym "t"))]
+      (some ["_ret"]) true).run { choices := [3, 4, 5] } with
+  | ok p => exact ⟨p.2, rfl⟩
+  | error e => rw [hrun] at h; cases h
+
 /-- not in the general class: the in-place self-negation (after the alias `b = a` the compiler is wrong) -/
 example : inGeneral ["a"] [("b", .sym "a"), ("a", .not (.sym "a")), ("_ret", .sym "b")] ["_ret"] = false := by
   decide +kernel
